@@ -1206,11 +1206,15 @@ def trusted_base(prop):
 
 
 def partial_clauses(prop):
-    return ["decodability of the horizontal form (a decoder that rebuilds the tree from hyield_tree's text): no Coq "
-            "theorem about the decoder itself; proved instead are the geometric facts it relies on (C18_h_rows, "
-            "C18_h_branch_row_inside, C18_h_leaf_order, C18_h_column_bands, C18_h_connectors), and the boolean "
-            "decoder h_decode of Spec/PC18.v is evaluated on every output (guided pass for every style, text-only "
-            "pass for styles whose first/last-child icons are recognisable; the all-'+' ascii style only guided)",
+    return ["horizontal round trip (the text-only decoder h_decode returns the tree from hyield_tree's text): a theorem "
+            "only for chains of any length (C18_h_roundtrip_chain_partial, every style with a non-blank branch icon, "
+            "names without blanks at the ends); for branching trees the induction through h_scan over a connector "
+            "column with several stacked blocks is missing — proved are the geometric facts it would rest on "
+            "(C18_h_rows, C18_h_branch_row_inside, C18_h_leaf_order, C18_h_column_bands, C18_h_connectors) and the "
+            "decoder is evaluated on every output (guided pass for every style, text-only pass for styles whose "
+            "first/last-child icons are recognisable, arm-based pass for the box-drawing styles; the all-'+' ascii "
+            "style only guided). The vertical round trip is a theorem for all trees (C18_v_decodable from the "
+            "triples, C18_v_text_decodable from the printed text, guard vstyle_ok + vstyle_distinct)",
             "C18_h_leaf_order / C18_h_column_bands / C18_h_connectors are stated on the model's rows (prefix ++ leaf "
             "cell, prefix widths, prefix column); the boolean forms h_leaf_order / h_geometry that first cut the text "
             "into bands are evaluated on outputs only",
